@@ -51,6 +51,10 @@ Proof. vm_compute. reflexivity. Qed.
 Lemma tie_flag_count : N.of_nat (List.length GenFlags.init_flags) = 26.
 Proof. vm_compute. reflexivity. Qed.
 
+(* which variant of the model describes the code NOW: the repaired one iff no regexp.MustCompile on user text is left
+   (extracted; the correspondence check runs the model with this value) *)
+Definition fixed_regexp_now : bool := negb GenFlags.must_compile_user_text.
+
 (* the statement of C17_flag_type_bijection, over the generated lists *)
 Lemma flag_type_bijection :
   (forall i, (i < 26)%nat -> type_of_flag (nth i GenFlags.init_flags EmptyString) = N.of_nat i
